@@ -125,10 +125,10 @@ type attemptRec struct {
 }
 
 type sessRec struct {
-	CaseID   string       `json:"case_id"`
-	Backend  string       `json:"backend"`
-	Path     string       `json:"path"`
-	Attempts []attemptRec `json:"attempts"`
+	CaseID   string        `json:"case_id"`
+	Backend  string        `json:"backend"`
+	Path     string        `json:"path"`
+	Attempts []*attemptRec `json:"attempts"`
 }
 
 type session struct {
@@ -148,14 +148,15 @@ type session struct {
 	accepted map[blob.Ref]int    // accepted attempts per ref through a hub-notifying path
 	accTot   int
 
-	rec    sessRec
-	n      int
-	nviol  int
-	dead   bool
-	srv    *httptest.Server
-	active atomic.Int32
-	panics []string
-	pmu    sync.Mutex
+	rec     sessRec
+	n       int
+	nviol   int
+	dead    bool
+	srv     *httptest.Server
+	active  atomic.Int32
+	started atomic.Int64
+	panics  []string
+	pmu     sync.Mutex
 }
 
 func labelOf(sp *sto.Spec) string {
@@ -220,7 +221,7 @@ func (s *session) site() string { return s.path + "." + s.label }
 func (s *session) witness() sessRec {
 	w := s.rec
 	if len(w.Attempts) > 40 {
-		w.Attempts = append([]attemptRec(nil), w.Attempts[len(w.Attempts)-40:]...)
+		w.Attempts = append([]*attemptRec(nil), w.Attempts[len(w.Attempts)-40:]...)
 	}
 	return w
 }
@@ -232,21 +233,21 @@ func (s *session) viol(sig, format string, args ...any) {
 
 func (s *session) logAttempt(of *offer, transport, part string) *attemptRec {
 	s.n++
-	a := attemptRec{N: s.n, Transport: transport, Reader: of.Reader, Mut: of.Mut, Arg: of.Arg, Ref: of.RefStr, TrueRef: of.TrueRef,
+	a := &attemptRec{N: s.n, Transport: transport, Reader: of.Reader, Mut: of.Mut, Arg: of.Arg, Ref: of.RefStr, TrueRef: of.TrueRef,
 		OfferLen: len(of.Data), Want: of.Want.String(), Part: part}
 	if len(of.Data) <= 96 {
 		a.DataHex = hex.EncodeToString(of.Data)
 	}
 	s.rec.Attempts = append(s.rec.Attempts, a)
-	return &s.rec.Attempts[len(s.rec.Attempts)-1]
+	return a
 }
 
 // outcome of one offer as seen by the caller.
 type outcome struct {
 	accepted bool
-	err      error  // Receive / ReceiveBlob error
-	status   int    // HTTP status (0: none / transport error)
-	terr     error  // HTTP transport error
+	err      error // Receive / ReceiveBlob error
+	status   int   // HTTP status (0: none / transport error)
+	terr     error // HTTP transport error
 	sb       blob.SizedRef
 	haveSB   bool
 	hub      bool // path notifies the destination's hub on success
@@ -333,10 +334,10 @@ func (s *session) acceptedSig(of *offer, wasStored bool) string {
 		return "accepted-oversize-prefix/" + s.site()
 	case of.Mut == "oversize":
 		return "accepted-oversize/" + s.site()
-	case of.Mut == "read-error":
-		return "accepted-after-read-error/" + s.site()
 	case wasStored:
 		return "accepted-corrupt-dup/" + s.site()
+	case of.Mut == "read-error":
+		return "accepted-after-read-error/" + s.site()
 	}
 	return "accepted-corrupt/" + s.site()
 }
